@@ -214,6 +214,19 @@ func runC13(c *Ctx, i int, r *rand.Rand) {
 	}
 	creq.App = c13Headers(r)
 	creq.Extra = http.Header{}
+	if creq.Comp == "" && chance(r, 12) {
+		// "uncompressed" spelled out: still a request that needs no conversion
+		if form == FConnectGet {
+			if strings.Contains(creq.RawTarget, "?") && !strings.Contains(creq.RawTarget, "compression=") {
+				creq.RawTarget += "&compression=identity"
+				c.Count("explicit-identity")
+			}
+		} else {
+			enc, _, _ := encName(form)
+			creq.Extra[enc] = []string{"identity"}
+			c.Count("explicit-identity")
+		}
+	}
 	// second build with the final raw target/body
 	built, err = creq.Build(r)
 	if err != nil {
